@@ -1,33 +1,55 @@
 #!/bin/bash
-# fuzz/run.sh <target> <ID> <runs> <seed>: build (offline, nightly, no sanitizer for the scheduler targets, ASan for the byte targets)
-# and run one pinned libFuzzer campaign on a fresh corpus. Exit 0 clean, 1 crash (prints VIOLATION line), 2 inconclusive.
+# fuzz/run.sh <target> <ID> <runs-per-job> <seed> [jobs]: build the libFuzzer target (offline, nightly; no sanitizer:
+# tarpc and tarpc-plugins contain no unsafe code, the in-target oracle is what decides) against /repo's current tree
+# and run <jobs> independent pinned campaigns (seeds seed*100+k, each on its own fresh corpus seeded from fuzz/seeds/<target>).
+# Exit 0 clean, 1 crash (prints a VIOLATION line), 2 inconclusive (build failure, timeout/oom artifact, ...).
 set -u
-T=$1; ID=$2; RUNS=$3; SEED=$4
+T=$1; ID=$2; RUNS=$3; SEED=$4; JOBS=${5:-${VERIF_FUZZ_JOBS:-8}}
 HERE=$(cd "$(dirname "$0")" && pwd); ROOT=${VERIF_ROOT:-$(cd "$HERE/../.." && pwd)}
 export CARGO_NET_OFFLINE=true VERIF_FUZZ_ONLY=$ID VERIF_ROOT=$ROOT
-SAN=none; case $T in decode|roundtrip) SAN=address;; esac
+mkdir -p "$ROOT/out"
 cd "$HERE/.." || exit 2
-if ! cargo +nightly fuzz build -s $SAN $T >"$ROOT/out/fuzz-build-$T.log" 2>&1; then
+(
+  flock 9
+  cargo +nightly fuzz build -s none $T >"$ROOT/out/fuzz-build-$T.log" 2>&1
+) 9>"$ROOT/out/.fuzz-build.lock"
+if [ $? -ne 0 ]; then
   echo "INCONCLUSIVE: fuzz target $T does not build (see out/fuzz-build-$T.log)"; tail -5 "$ROOT/out/fuzz-build-$T.log"; exit 2
 fi
-W="$ROOT/out/fuzz/$ID-$T"; rm -rf "$W"; mkdir -p "$W/corpus" "$W/artifacts"
-# seed corpus: a few small valid inputs committed with the harness
-cp "$HERE"/seeds/$T/* "$W/corpus/" 2>/dev/null
+BIN="$HERE/target/x86_64-unknown-linux-gnu/release/$T"
+[ -x "$BIN" ] || { echo "INCONCLUSIVE: $BIN missing after build"; exit 2; }
+W="$ROOT/out/fuzz/$ID-$T"; rm -rf "$W"; mkdir -p "$W"
 [ "$SEED" = "0" ] && SEED=1
-LOG="$W/log.txt"
-cargo +nightly fuzz run -s $SAN $T "$W/corpus" -- -runs=$RUNS -seed=$SEED -len_control=0 -max_len=4096 -timeout=60 -artifact_prefix="$W/artifacts/" -print_final_stats=1 >"$LOG" 2>&1
-rc=$?
-execs=$(grep -oE "stat::number_of_executed_units: [0-9]+" "$LOG" | grep -oE "[0-9]+$")
-cov=$(grep -oE "cov: [0-9]+" "$LOG" | tail -1 | grep -oE "[0-9]+")
-corpus=$(ls "$W/corpus" | wc -l)
-echo "fuzz $T for $ID: runs=${execs:-?} corpus=$corpus cov=${cov:-?} rc=$rc"
-echo "{\"target\":\"$T\",\"executed\":${execs:-0},\"corpus_files\":$corpus,\"edge_coverage\":${cov:-0},\"seed\":$SEED,\"sanitizer\":\"$SAN\"}" > "$W/stats.json"
+pids=()
+for k in $(seq 1 $JOBS); do
+  mkdir -p "$W/corpus$k" "$W/artifacts$k"
+  cp "$HERE"/seeds/$T/* "$W/corpus$k/" 2>/dev/null
+  ( cd "$W" && "$BIN" "$W/corpus$k" -runs=$RUNS -seed=$((SEED*100+k)) -len_control=0 -max_len=4096 -timeout=60 -rss_limit_mb=4096 \
+      -artifact_prefix="$W/artifacts$k/" -print_final_stats=1 >"$W/log$k.txt" 2>&1 ) &
+  pids+=($!)
+done
+rc=0
+for p in "${pids[@]}"; do wait $p || rc=$?; done
+execs=0; cov=0; corpus=0
+for k in $(seq 1 $JOBS); do
+  e=$(grep -oE "stat::number_of_executed_units: [0-9]+" "$W/log$k.txt" | grep -oE "[0-9]+$"); execs=$((execs+${e:-0}))
+  c=$(grep -oE "cov: [0-9]+" "$W/log$k.txt" | tail -1 | grep -oE "[0-9]+"); [ "${c:-0}" -gt "$cov" ] && cov=$c
+  corpus=$((corpus+$(ls "$W/corpus$k" | wc -l)))
+done
+echo "fuzz $T for $ID: jobs=$JOBS executed=$execs corpus_files=$corpus max_edge_cov=$cov rc=$rc"
+echo "{\"target\":\"$T\",\"jobs\":$JOBS,\"executed\":$execs,\"corpus_files\":$corpus,\"edge_coverage\":$cov,\"seed\":$SEED,\"runs_per_job\":$RUNS,\"sanitizer\":\"none\",\"seed_corpus\":\"harness/fuzz/seeds/$T\"}" > "$W/stats.json"
 if [ $rc -ne 0 ]; then
-  art=$(ls "$W/artifacts"/crash-* "$W/artifacts"/timeout-* "$W/artifacts"/oom-* 2>/dev/null | head -1)
-  if [ -z "$art" ]; then echo "INCONCLUSIVE: fuzzer exited $rc without an artifact"; tail -5 "$LOG"; exit 2; fi
-  case "$art" in *timeout-*|*oom-*) echo "INCONCLUSIVE: fuzzer reported $(basename $art) (hang/oom is never a violation)"; exit 2;; esac
+  art=$(ls "$W"/artifacts*/crash-* 2>/dev/null | head -1)
+  if [ -z "$art" ]; then
+    other=$(ls "$W"/artifacts*/timeout-* "$W"/artifacts*/oom-* 2>/dev/null | head -1)
+    if [ -n "$other" ]; then echo "INCONCLUSIVE: fuzzer reported $(basename $other) (a hang or out-of-memory is never reported as a violation)"; exit 2; fi
+    echo "INCONCLUSIVE: fuzzer exited $rc without an artifact"; tail -5 "$W"/log1.txt; exit 2
+  fi
+  if ! grep -q "VIOLATION property=" "$W"/log*.txt; then
+    echo "INCONCLUSIVE: the fuzz target crashed without reporting a property violation (harness fault?): $art"; grep -h -m1 "panicked at" -A2 "$W"/log*.txt | head -4; exit 2
+  fi
   mkdir -p "$ROOT/out/replays"; dst="$ROOT/out/replays/$ID-fuzz-$T-$SEED.bin"; cp "$art" "$dst"
-  grep -m1 "VIOLATION property=" "$LOG" | cut -c1-400
+  grep -h -m1 "VIOLATION property=" "$W"/log*.txt | head -1 | cut -c1-400
   echo "VIOLATION property=$ID replay=$dst"
   exit 1
 fi
